@@ -193,6 +193,15 @@ def prefix_idiom(ctx: Ctx, f, lst: Optional[str], nump: str, frame=None, env=Non
             if len(live) != 1 or live[0].ast.value is None or live[0].loops:
                 break
             e = strip_cast(live[0].ast.value)
+        if isinstance(e, ast.IfExp):
+            # `a if flag else b` with a flag this call site passes as a literal: the arm it selects
+            t_, neg = e.test, False
+            while isinstance(t_, ast.UnaryOp) and isinstance(t_.op, ast.Not):
+                t_, neg = t_.operand, not neg
+            if isinstance(t_, ast.Name):
+                _f, _e, leaf = ctx.vals.trace(frame, env, t_)
+                if isinstance(leaf, ast.Constant) and isinstance(leaf.value, bool):
+                    return live_value(e.body if leaf.value != neg else e.orelse)
         return e
 
     def reversed_running(e: ast.AST) -> Optional[bool]:
@@ -363,6 +372,37 @@ def prefix_idiom(ctx: Ctx, f, lst: Optional[str], nump: str, frame=None, env=Non
         if rv is None or nn is None:
             return None, "unrecognised slice"
         return (rv and nn), "list(reversed(running))[:max(num, 0)]" if rv and nn else "slice over the wrong order or with a possibly negative bound"
+    # idiom 3: [task_id for _, task_id in takewhile(lambda pair: pair[0] < num, enumerate(reversed(running)))]
+    if isinstance(e, (ast.ListComp, ast.GeneratorExp)) and len(e.generators) == 1 and not e.generators[0].ifs:
+        gen = e.generators[0]
+        src = live_value(gen.iter)
+        if isinstance(src, ast.Call) and ctx.an.scope(f).callee(src).name.endswith("takewhile") and len(src.args) == 2 and isinstance(src.args[0], ast.Lambda):
+            lam, inner = src.args[0], live_value(src.args[1])
+            pair_ok = isinstance(gen.target, ast.Tuple) and len(gen.target.elts) == 2 and all(isinstance(x, ast.Name) for x in gen.target.elts) \
+                and isinstance(e.elt, ast.Name) and e.elt.id == gen.target.elts[1].id
+            enum_ok = isinstance(inner, ast.Call) and isinstance(inner.func, ast.Name) and inner.func.id == "enumerate" and len(inner.args) == 1 and not inner.keywords
+            if pair_ok and enum_ok and len(lam.args.args) == 1 and not (lam.args.vararg or lam.args.kwarg or lam.args.kwonlyargs):
+                rv = reversed_running(inner.args[0])
+                p_ = lam.args.args[0].arg
+                c = lam.body
+
+                def is_index(x: ast.AST) -> bool:
+                    return isinstance(x, ast.Subscript) and isinstance(x.value, ast.Name) and x.value.id == p_ and isinstance(x.slice, ast.Constant) and x.slice.value == 0
+
+                def is_num(x: ast.AST) -> bool:
+                    return isinstance(x, ast.Name) and x.id == nump and x.id in frame.param_names()
+
+                bound = None
+                if isinstance(c, ast.Compare) and len(c.ops) == 1:
+                    l_, r_ = c.left, c.comparators[0]
+                    if is_index(l_) and is_num(r_):
+                        bound = isinstance(c.ops[0], ast.Lt)
+                    elif is_num(l_) and is_index(r_):
+                        bound = isinstance(c.ops[0], ast.Gt)
+                if rv is None or bound is None:
+                    return None, "unrecognised takewhile arguments"
+                return (rv and bound), ("takewhile(index < num) over enumerate(reversed(running))" if rv and bound
+                                        else "takewhile over the wrong order or with the wrong comparison (off by one)")
     # positively wrong: the ids are enumerated arithmetically (range(...), id +/- k) instead of being drawn from the registry
     arith = arithmetic_ids(ctx, frame, env, v)
     if arith is not None:
